@@ -113,6 +113,8 @@ type Machine struct {
 	walk      int
 	bufs      map[*value]*[]*sym.Term
 	orderBudget int
+	orderLight  bool
+	orderGlobal int
 	cyclicSeen bool
 	doms      map[string]*dom
 	tsMemo    map[int]sym.Val
@@ -143,6 +145,8 @@ func (m *Machine) resetPath(prefix []int32) {
 	m.globals = map[*ssa.Global]*value{}
 	m.prefix = prefix
 	m.OrderMode = m.cfg.OrderMode
+	m.orderLight = false
+	m.orderGlobal = 0
 	m.orderBudget = m.cfg.OrderBudget
 	m.decisions = m.decisions[:0]
 	m.pending = nil
